@@ -192,3 +192,106 @@ Theorem C01_hist_example_spec :
                  (subst_s (map (fun p : nat * ref => (fst p, bfun_of (h_s acache ex_stA) (snd p))) ex_rp) fA5)).
 Proof. exact (conj ex_spec_quant (conj ex_spec_restrict ex_spec_subst)). Qed.
 Print Assumptions C01_hist_example_spec.
+
+(** ** ALL histories, complement-edge kind (HISTc): canonicity after any sequence of operations,
+    handle drops, garbage collections, variable additions and reorderings (the BCDD manager state
+    machine of Mgr/HistoryC.v; any edge order, any lossy cache).  A slot holds an EDGE: node
+    reference AND complement tag; [cbfun_of] is [semc] read through [s_l2v]. *)
+From OxiVerif Require Import DD.ApplyBcdd DD.ApplyBcddProofs DD.ApplyBcddEval
+  Mgr.HistoryC Mgr.HistoryCProofs Mgr.HistoryCThms Mgr.HistoryCSpec Mgr.HistoryCExamples.
+
+(* two handle slots hold the same edge IFF they denote the same function of the variables *)
+Theorem C01_histc_canonical :
+  forall (lt : edge -> edge -> bool) (C : Type) (cget : C -> N -> list edge -> option edge)
+         (cadd : C -> N -> list edge -> edge -> C), lossyC cget cadd ->
+  forall cempty : C, (forall k a, cget cempty k a = None) ->
+  forall n st, hreach_c lt C cget cadd cempty n st ->
+  forall x y ex ey,
+    hget (s_handles (hc_s C st)) x = Some ex -> hget (s_handles (hc_s C st)) y = Some ey ->
+    (ex = ey <-> forall a, cbfun_of (hc_s C st) ex a = cbfun_of (hc_s C st) ey a).
+Proof. exact histc_canonical. Qed.
+Print Assumptions C01_histc_canonical.
+
+(* the same for every state satisfying the invariant *)
+Theorem C01_histc_inv_canonical :
+  forall (C : Type) (cget : C -> N -> list edge -> option edge) (st : hstate_c C), HInvC C cget st ->
+  forall x y ex ey,
+    hget (s_handles (hc_s C st)) x = Some ex -> hget (s_handles (hc_s C st)) y = Some ey ->
+    (ex = ey <-> forall a, cbfun_of (hc_s C st) ex a = cbfun_of (hc_s C st) ey a).
+Proof. exact hinvc_canonical. Qed.
+Print Assumptions C01_histc_inv_canonical.
+
+(* result correctness along histories: the destination holds the spec function [F] that [hspec_c]
+   reads off the operands' FUNCTIONS, whatever happened before *)
+Theorem C01_histc_spec :
+  forall (lt : edge -> edge -> bool) (C : Type) (cget : C -> N -> list edge -> option edge)
+         (cadd : C -> N -> list edge -> edge -> C), lossyC cget cadd ->
+  forall cempty : C, (forall k a, cget cempty k a = None) ->
+  forall st o d F, HInvC C cget st -> hspec_c C st o d F ->
+  exists st', hstep_c lt C cget cadd cempty st o = Some st' /\ HInvC C cget st' /\
+              hframe_c C st o st' /\ holds_c C st' d F.
+Proof. exact hstep_c_spec. Qed.
+Print Assumptions C01_histc_spec.
+
+(* inside one manager: every slot that holds [F] afterwards holds the very edge that was returned *)
+Theorem C01_histc_result_unique :
+  forall (lt : edge -> edge -> bool) (C : Type) (cget : C -> N -> list edge -> option edge)
+         (cadd : C -> N -> list edge -> edge -> C), lossyC cget cadd ->
+  forall cempty : C, (forall k a, cget cempty k a = None) ->
+  forall st o d F st', HInvC C cget st -> hspec_c C st o d F ->
+  hstep_c lt C cget cadd cempty st o = Some st' ->
+  forall y, holds_c C st' y F ->
+  hget (s_handles (hc_s C st')) y = hget (s_handles (hc_s C st')) d.
+Proof. exact histc_result_unique. Qed.
+Print Assumptions C01_histc_result_unique.
+
+(* across two managers (different histories, edge orders, cache implementations) with the same
+   variable order: same spec function => same function, same complement tag, same node count *)
+Theorem C01_histc_result_determined :
+  forall (lt1 lt2 : edge -> edge -> bool) (C1 C2 : Type)
+         (cget1 : C1 -> N -> list edge -> option edge) (cadd1 : C1 -> N -> list edge -> edge -> C1)
+         (cget2 : C2 -> N -> list edge -> option edge) (cadd2 : C2 -> N -> list edge -> edge -> C2),
+  lossyC cget1 cadd1 -> lossyC cget2 cadd2 ->
+  forall (ce1 : C1) (ce2 : C2), (forall k a, cget1 ce1 k a = None) -> (forall k a, cget2 ce2 k a = None) ->
+  forall st1 st2 o1 o2 d1 d2 F st1' st2',
+  HInvC C1 cget1 st1 -> HInvC C2 cget2 st2 ->
+  s_l2v (hc_s C1 st1) = s_l2v (hc_s C2 st2) -> s_v2l (hc_s C1 st1) = s_v2l (hc_s C2 st2) ->
+  hspec_c C1 st1 o1 d1 F -> hspec_c C2 st2 o2 d2 F ->
+  hstep_c lt1 C1 cget1 cadd1 ce1 st1 o1 = Some st1' -> hstep_c lt2 C2 cget2 cadd2 ce2 st2 o2 = Some st2' ->
+  exists r1 r2, cslot C1 st1' d1 = Some r1 /\ cslot C2 st2' d2 = Some r2 /\
+    (forall a, cbfun_of (hc_s C1 st1') r1 a = F a) /\
+    (forall a, cbfun_of (hc_s C2 st2') r2 a = F a) /\
+    etag r1 = etag r2 /\
+    count_reach (hc_s C1 st1') r1 = count_reach (hc_s C2 st2') r2.
+Proof. exact histc_result_determined. Qed.
+Print Assumptions C01_histc_result_determined.
+
+(* non-vacuity, on the computed state after the 26-call history [exc_ops] (Mgr/HistoryCExamples.v):
+   a clone holds the same edge; not (equiv (xor f x3) x3) comes back to the edge of f; its negation
+   is the same node with the other tag; two different edges denote different functions *)
+Theorem C01_histc_example :
+  hget (s_handles (hc_s eacache exc_stA)) 5 = hget (s_handles (hc_s eacache exc_stA)) 14 /\
+  hget (s_handles (hc_s eacache exc_stA)) 5 = hget (s_handles (hc_s eacache exc_stA)) 19 /\
+  option_map enot (hget (s_handles (hc_s eacache exc_stA)) 5) = hget (s_handles (hc_s eacache exc_stA)) 18 /\
+  forall e5 e7, hget (s_handles (hc_s eacache exc_stA)) 5 = Some e5 ->
+                hget (s_handles (hc_s eacache exc_stA)) 7 = Some e7 ->
+    ~ (forall a, cbfun_of (hc_s eacache exc_stA) e5 a = cbfun_of (hc_s eacache exc_stA) e7 a).
+Proof. exact exc_canonA. Qed.
+Print Assumptions C01_histc_example.
+
+(* non-vacuity of [hspec_c] for the quantifier / restrict / substitute calls: instantiated in the
+   state after the 26-call history (slot 1 holds the variable set {x1}, slot 10 the cube
+   x0 /\ ~x2 - a complemented edge -, substitution object 0 - with a complemented replacement
+   edge - was created 12 calls, one collection and one reordering ago) *)
+Theorem C01_histc_example_spec :
+  (exists st', hstep_c ltA eacache eac_get eac_add nil exc_stA (HQuant QExists 21 5 1) = Some st' /\
+               holds_c eacache st' 21 (exists_s (1 :: nil) gA5)) /\
+  (exists st', hstep_c ltA eacache eac_get eac_add nil exc_stA (HRestrict 21 5 10) = Some st' /\
+               holds_c eacache st' 21 (restrict_s ((0, true) :: (2, false) :: nil) gA5)) /\
+  (exists st', hstep_c ltA eacache eac_get eac_add nil exc_stA (HSubst 21 5 0) = Some st' /\
+               length exc_rp = 2 /\
+               existsb (fun vr : nat * edge => etag (snd vr)) exc_rp = true /\
+               holds_c eacache st' 21
+                 (subst_s (map (fun p : nat * edge => (fst p, cbfun_of (hc_s eacache exc_stA) (snd p))) exc_rp) gA5)).
+Proof. exact (conj exc_spec_quant (conj exc_spec_restrict exc_spec_subst)). Qed.
+Print Assumptions C01_histc_example_spec.
